@@ -5,16 +5,22 @@ import Sqljson.Model.Exec
 Value level (`Num.lean` mirrors `exec/math.go`, `exec/util.go`, the callbacks of `exec/method.go`),
 for **all** operands, not a corpus:
 
-* `int_exact_*`: both operands int64 and the exact result in int64 ⇒ the result is that integer;
+* `int_exact_*`: both operands int64 and the exact result in int64 ⇒ the result is that integer
+  (`executeIntegerMath`; through `execMathOp`: `mathOp_int_exact_*`);
   quotients are truncated (`div_trunc`), remainders take the sign of the dividend (`mod_trunc`);
 * `div_zero_*`: division or modulo by zero is an error for every dividend, integer or double;
 * `float_ieee_*`: when an operand is a double, the result is the IEEE-754 double operation on the
   operands converted to double (`F64.add` … — round-to-nearest-even from the exact rational);
 * `neg_neg_int`, `neg_neg_float`, `add_comm`, `mul_comm`;
-* `no_silent_wrap_counterexample`: **the full property is false of the code**: an int64 sum that does
-  not fit is wrapped (D12, recorded in known_findings.json); `no_silent_wrap_partial` is what holds:
-  the integer returned is the exact result reduced modulo 2^64 into the int64 range, and equals the
-  exact result whenever that fits;
+* binary `+ - * /` on two integers never wraps (the binary part of D12 is repaired in the code:
+  `executeInt64Math`): `int_int` + `int64Math_fits` / `int64Math_overflows` — when the exact result
+  leaves the int64 range the operation is the double operation on the converted operands;
+  `no_silent_wrap_partial`: an *integer* returned by `+ - * /` on two integers is the exact result, for
+  all operands; `binary_overflow_goes_to_float`: MaxInt64 + 1 = 9.223372036854775808e18.  The
+  property-facing statement (exact integer, or the correctly rounded, finite double) is
+  `C13c.no_silent_wrap_binary`;
+* `unary_minus_wraps_counterexample`, `abs_wraps_counterexample`: **what remains of D12** (recorded in
+  known_findings.json): unary minus and `.abs()` of MinInt64 are MinInt64;
 * `finite_or_error`: a binary operation never returns Inf or NaN as an item (overflow is an error).
 -/
 
@@ -56,14 +62,57 @@ theorem div_zero_float (a : F64) (neg : Bool) :
     floatMath a (F64.zero neg) .div = .error .divZero ∧ floatMath a (F64.zero neg) .mod = .error .divZero := by
   cases neg <;> simp [floatMath, F64.zero, F64.feq, F64.cmp, F64.toQ]
 
-/-- what holds of integer results: exact modulo 2^64 -/
-theorem no_silent_wrap_partial (a b r : Int) (h : integerMath a b .add = .ok r) : r = wrap64 (a + b) := by
-  simp [integerMath] at h; exact h.symm
+/-- `executeInt64Math` when the exact result fits (always for `%`): the integer operation -/
+theorem int64Math_fits (a b : Int) (op : BinOp) (h : Item.inInt64 (exactInt a b op) = true) :
+    int64Math a b op = liftI (integerMath a b op) := by
+  simp [int64Math, int64MathOverflows, h]
 
-/-- D12: the full statement "a result that does not fit is never wrapped into a wrong integer" is
-    false of the code: 9223372036854775807 + 1 = -9223372036854775808 -/
-theorem no_silent_wrap_counterexample :
-    integerMath 9223372036854775807 1 .add = .ok (-9223372036854775808) := by rfl
+/-- `executeInt64Math` when the exact result of `+ - * /` does not fit: the double operation on the converted operands -/
+theorem int64Math_overflows (a b : Int) (op : BinOp) (h : Item.inInt64 (exactInt a b op) = false) :
+    int64Math a b op = liftF (floatMath (F64.ofInt a) (F64.ofInt b) op) := by
+  simp [int64Math, int64MathOverflows, h]
+
+/-- an integer returned by `+ - * /` on two integers is the exact result and lies in the int64 range — for **all**
+    operands (a result that does not fit is a double, never a wrapped integer) -/
+theorem no_silent_wrap_partial (a b r : Int) (op : BinOp) (hop : op = .add ∨ op = .sub ∨ op = .mul ∨ op = .div)
+    (h : mathOp (.int a) (.int b) op = .ok (.int r)) :
+    r = exactInt a b op ∧ Item.inInt64 r = true := by
+  have h' : int64Math a b op = .ok (.int r) := h
+  cases hfit : Item.inInt64 (exactInt a b op) with
+  | false =>
+    rw [int64Math_overflows a b op hfit] at h'
+    cases hf : floatMath (F64.ofInt a) (F64.ofInt b) op <;> rw [hf] at h' <;> simp [liftF, Except.map] at h'
+  | true =>
+    rw [int64Math_fits a b op hfit] at h'
+    have hw := wrap64_id _ hfit
+    rcases hop with rfl | rfl | rfl | rfl
+    · simp [integerMath, liftI, Except.map, exactInt] at h' hw hfit ⊢
+      rw [hw] at h'; subst h'; exact ⟨rfl, hfit⟩
+    · simp [integerMath, liftI, Except.map, exactInt] at h' hw hfit ⊢
+      rw [hw] at h'; subst h'; exact ⟨rfl, hfit⟩
+    · simp [integerMath, liftI, Except.map, exactInt] at h' hw hfit ⊢
+      rw [hw] at h'; subst h'; exact ⟨rfl, hfit⟩
+    · simp only [exactInt] at hw hfit ⊢
+      by_cases hb : b = 0
+      · simp [integerMath, liftI, Except.map, hb] at h'
+      · simp [integerMath, liftI, Except.map, hb] at h'
+        rw [hw] at h'; subst h'; exact ⟨rfl, hfit⟩
+
+/-- the binary part of D12 is repaired: 9223372036854775807 + 1 is the double 9223372036854775808
+    (9.223372036854775808e18 = 2^63 = `0x43E0000000000000`), not -9223372036854775808 -/
+theorem binary_overflow_goes_to_float :
+    mathOp (.int 9223372036854775807) (.int 1) .add = .ok (.flt (F64.ofInt 9223372036854775808)) ∧
+    F64.ofInt 9223372036854775808 = .fin false (2 ^ 52) 11 ∧
+    F64.toBits (F64.ofInt 9223372036854775808) = 0x43E0000000000000 := by
+  refine ⟨by rfl, by decide +kernel, by decide +kernel⟩
+
+/-- D12, what remains: unary minus of MinInt64 wraps to MinInt64 … -/
+theorem unary_minus_wraps_counterexample :
+    applyI .uminus (-9223372036854775808) = -9223372036854775808 := by decide +kernel
+
+/-- … and so does `.abs()`: the "absolute value" of MinInt64 is negative -/
+theorem abs_wraps_counterexample :
+    applyI .abs (-9223372036854775808) = -9223372036854775808 := by decide +kernel
 
 theorem float_ieee_int_float (a : Int) (b : F64) (op : BinOp) :
     mathOp (.int a) (.flt b) op = liftF (floatMath (F64.ofInt a) b op) := rfl
@@ -74,7 +123,28 @@ theorem float_ieee_float_int (a : F64) (b : Int) (op : BinOp) :
 theorem float_ieee_float_float (a b : F64) (op : BinOp) :
     mathOp (.flt a) (.flt b) op = liftF (floatMath a b op) := rfl
 
-theorem int_int (a b : Int) (op : BinOp) : mathOp (.int a) (.int b) op = liftI (integerMath a b op) := rfl
+theorem int_int (a b : Int) (op : BinOp) : mathOp (.int a) (.int b) op = int64Math a b op := rfl
+
+/-- `int_exact_*`, `div_trunc`, `mod_trunc` through `execMathOp` -/
+theorem mathOp_int_exact_add (a b : Int) (h : Item.inInt64 (a + b) = true) :
+    mathOp (.int a) (.int b) .add = .ok (.int (a + b)) := by
+  rw [int_int, int64Math_fits a b .add h, int_exact_add a b h]; rfl
+
+theorem mathOp_int_exact_sub (a b : Int) (h : Item.inInt64 (a - b) = true) :
+    mathOp (.int a) (.int b) .sub = .ok (.int (a - b)) := by
+  rw [int_int, int64Math_fits a b .sub h, int_exact_sub a b h]; rfl
+
+theorem mathOp_int_exact_mul (a b : Int) (h : Item.inInt64 (a * b) = true) :
+    mathOp (.int a) (.int b) .mul = .ok (.int (a * b)) := by
+  rw [int_int, int64Math_fits a b .mul h, int_exact_mul a b h]; rfl
+
+theorem mathOp_div_trunc (a b : Int) (hb : b ≠ 0) (h : Item.inInt64 (Int.tdiv a b) = true) :
+    mathOp (.int a) (.int b) .div = .ok (.int (Int.tdiv a b)) := by
+  rw [int_int, int64Math_fits a b .div h, div_trunc a b hb h]; rfl
+
+theorem mathOp_mod_trunc (a b : Int) (hb : b ≠ 0) (h : Item.inInt64 (Int.tmod a b) = true) :
+    mathOp (.int a) (.int b) .mod = .ok (.int (Int.tmod a b)) := by
+  rw [int_int, int64Math_fits a b .mod rfl, mod_trunc a b hb h]; rfl
 
 theorem neg_neg_int (x : Int) (h : Item.inInt64 x = true) : applyI .uminus (applyI .uminus x) = x := by
   obtain ⟨h1, h2⟩ := (inInt64_iff x).1 h
@@ -114,6 +184,16 @@ theorem floatMath_add_comm (a b : F64) : floatMath a b .add = floatMath b a .add
 theorem floatMath_mul_comm (a b : F64) : floatMath a b .mul = floatMath b a .mul := by
   simp [floatMath, F64.mul_comm]
 
+theorem int64Math_add_comm (a b : Int) : int64Math a b .add = int64Math b a .add := by
+  have e : exactInt a b .add = exactInt b a .add := Int.add_comm a b
+  unfold int64Math int64MathOverflows
+  rw [e, integerMath_add_comm a b, floatMath_add_comm (F64.ofInt a) (F64.ofInt b)]
+
+theorem int64Math_mul_comm (a b : Int) : int64Math a b .mul = int64Math b a .mul := by
+  have e : exactInt a b .mul = exactInt b a .mul := Int.mul_comm a b
+  unfold int64Math int64MathOverflows
+  rw [e, integerMath_mul_comm a b, floatMath_mul_comm (F64.ofInt a) (F64.ofInt b)]
+
 /-- the numeric reading of an item, as `execMathOp` performs it -/
 def readNum : Item → Option N
   | .int i => some (.int i)
@@ -125,12 +205,12 @@ def readNum : Item → Option N
 theorem add_comm_num (l r : Item) (hl : ∃ i, l = .int i ∨ ∃ f, l = .flt f) (hr : ∃ i, r = .int i ∨ ∃ f, r = .flt f) :
     mathOp l r .add = mathOp r l .add := by
   obtain ⟨i, hl | ⟨f, hl⟩⟩ := hl <;> obtain ⟨j, hr | ⟨g, hr⟩⟩ := hr <;> subst hl hr <;>
-    simp [mathOp, mathOpI, mathOpF, integerMath_add_comm, floatMath_add_comm]
+    simp [mathOp, mathOpI, mathOpF, int64Math_add_comm, floatMath_add_comm]
 
 theorem mul_comm_num (l r : Item) (hl : ∃ i, l = .int i ∨ ∃ f, l = .flt f) (hr : ∃ i, r = .int i ∨ ∃ f, r = .flt f) :
     mathOp l r .mul = mathOp r l .mul := by
   obtain ⟨i, hl | ⟨f, hl⟩⟩ := hl <;> obtain ⟨j, hr | ⟨g, hr⟩⟩ := hr <;> subst hl hr <;>
-    simp [mathOp, mathOpI, mathOpF, integerMath_mul_comm, floatMath_mul_comm]
+    simp [mathOp, mathOpI, mathOpF, int64Math_mul_comm, floatMath_mul_comm]
 
 /-! ### executor level -/
 
